@@ -287,3 +287,60 @@ func Extract(src string) Emitted {
 	}
 	return out
 }
+
+// TypeErrors type-checks src (a generated container file, or its skeleton)
+// against the packages the importer knows. Imports the importer does not know
+// are treated as the user's packages: they become empty fixture packages and
+// every complaint about them is dropped, as are complaints about placeholder
+// identifiers (skeleton holes), unused imports (pruned later by goimports) and
+// current-package symbols named in allowUndefined.
+func TypeErrors(src string, imp types.Importer, allowUndefined func(name string) bool) []string {
+	fset := token.NewFileSet()
+	f, err := parser.ParseFile(fset, "generated.go", src, parser.ParseComments)
+	if err != nil {
+		return []string{"parse: " + err.Error()}
+	}
+	var fakes []string
+	wrapped := importerFunc(func(path string) (*types.Package, error) {
+		if imp != nil {
+			if p, err := imp.Import(path); err == nil && p != nil {
+				return p, nil
+			}
+		}
+		name := path[strings.LastIndex(path, "/")+1:]
+		p := types.NewPackage(path, name)
+		p.MarkComplete()
+		fakes = append(fakes, name)
+		for _, im := range f.Imports {
+			if strings.Trim(im.Path.Value, `"`) == path && im.Name != nil {
+				fakes = append(fakes, im.Name.Name)
+			}
+		}
+		return p, nil
+	})
+	var out []string
+	conf := types.Config{Importer: wrapped, Error: func(e error) {
+		msg := e.Error()
+		if te, ok := e.(types.Error); ok {
+			msg = te.Msg
+		}
+		if (strings.Contains(msg, "imported") && strings.Contains(msg, "not used")) || strings.Contains(msg, "VFH") || strings.Contains(msg, "VFQ") {
+			return
+		}
+		for _, fk := range fakes {
+			if strings.Contains(msg, fk+".") || strings.Contains(msg, "undefined: "+fk) {
+				return
+			}
+		}
+		if strings.HasPrefix(msg, "undefined: ") && allowUndefined != nil && allowUndefined(strings.TrimPrefix(msg, "undefined: ")) {
+			return
+		}
+		out = append(out, msg)
+	}}
+	_, _ = conf.Check(f.Name.Name, fset, []*ast.File{f}, nil)
+	return out
+}
+
+type importerFunc func(path string) (*types.Package, error)
+
+func (f importerFunc) Import(path string) (*types.Package, error) { return f(path) }
